@@ -101,7 +101,11 @@ fn groups_of(p: &Prog) -> BTreeMap<u32, Vec<&Var>> {
 pub fn check_model(p: &Prog, text: &str) -> Vec<String> {
     let mut out = vec![];
     let m = omodel::parse(text).unwrap_or_else(|e| machinery(&format!("C04: {e}")));
-    let bg = m.bind_groups().unwrap_or_else(|e| machinery(&format!("C04 {}: {e}", p.key)));
+    let bg = match m.bind_groups() {
+        Ok(b) => b,
+        Err(omodel::interp::UnknownName::Missing(v)) => return vec![format!("bind group without its own items: {v}")],
+        Err(e) => machinery(&format!("C04 {}: {e}", p.key)),
+    };
     let want = groups_of(p);
     let got_groups: Vec<u32> = bg.groups.iter().map(|g| g.index).collect();
     let want_groups: Vec<u32> = want.keys().copied().collect();
@@ -428,6 +432,31 @@ pub fn space(thorough: bool) -> Vec<Prog> {
             }
         }
     }
+    // groups of identical shape (same bindings, kinds and address spaces in the same order) and near-identical ones:
+    // each group still owns its layout, its resource struct and its slot
+    for k in 2..=4u32 {
+        for per in 1..=2usize {
+            for kind_off in 0..if thorough { KINDS.len() } else { 3 } {
+                for odd in [None, Some(k - 1), Some(0)] {
+                    let mut vars = vec![];
+                    let mut src = String::new();
+                    let mut i = 0usize;
+                    for g in 0..k {
+                        for j in 0..per {
+                            // the odd group out (if any) shifts its kinds by one
+                            let kind = KINDS[(j + kind_off + (odd == Some(g)) as usize) % KINDS.len()];
+                            let name = format!("{}_{}", NAME_POOL[(i * 5 + kind_off) % NAME_POOL.len()], i);
+                            src.push_str(&kind.decl(&name, g, (j * 3) as u32));
+                            vars.push(Var { name, group: g, binding: (j * 3) as u32, kind });
+                            i += 1;
+                        }
+                    }
+                    src.push_str("@compute @workgroup_size(1) fn main() {\n}\n@fragment fn fs_main() {\n}\n");
+                    out.push(Prog { key: format!("twins|k={k}|per={per}|kinds={kind_off}|odd={odd:?}"), vars, src });
+                }
+            }
+        }
+    }
     // up to 8 groups, one variable each, every rotation and the reversed declaration order
     for g in 4..=8u32 {
         let base: Vec<(u32, u32)> = (0..g).map(|i| (i, (i * 3) % 7)).collect();
@@ -472,7 +501,7 @@ pub fn run(tier: &str) -> i32 {
     }
     // executed subset: evenly spread, plus all programs with >= 4 groups
     let stride = if thorough { (progs.len() / 700).max(1) } else { (progs.len() / 40).max(1) };
-    let chosen: Vec<usize> = (0..progs.len()).filter(|i| i % stride == 0 || progs[*i].key.starts_with("g8") || (thorough && progs[*i].vars.iter().map(|v| v.group).max().unwrap_or(0) >= 3)).collect();
+    let chosen: Vec<usize> = (0..progs.len()).filter(|i| i % stride == 0 || progs[*i].key.starts_with("g8") || (progs[*i].key.starts_with("twins|") && (thorough || progs[*i].key.contains("kinds=0"))) || (thorough && progs[*i].vars.iter().map(|v| v.group).max().unwrap_or(0) >= 3)).collect();
     let cases: Vec<ProbeCase> = chosen
         .iter()
         .filter(|i| texts[**i].is_some())
@@ -505,7 +534,10 @@ pub fn run(tier: &str) -> i32 {
         }
         // conformance omodel <-> compiled program: layout entries field by field
         let m = omodel::parse(texts[i].as_ref().unwrap()).unwrap();
-        let bg = m.bind_groups().unwrap();
+        let bg = match m.bind_groups() {
+            Ok(b) => b,
+            Err(_) => continue, // already reported by the model check
+        };
         for g in &bg.groups {
             let model: Vec<String> = g.layout_entries.iter().map(|e| format!("{e:?}")).collect();
             match exec_layouts.get(&g.index) {
@@ -523,6 +555,6 @@ pub fn run(tier: &str) -> i32 {
     for i in [0, progs.len() / 3, progs.len() - 1] {
         rep.sample(json!({"key": progs[i].key, "wgsl": progs[i].src}));
     }
-    rep.rule = "declaration sequences (order is state): one group with every repetition-free sequence of 1..3 bindings over {0,1,2,5,9}; two groups with per-group sequences of <=2 bindings over {0,2,5} in every interleaving of declaration order; three groups likewise over {1,4}; 4..8 groups in every rotation and reversed; resource kinds rotate (uniform/storage buffer, texture, storage texture, sampler); names chosen so that alphabetical, declaration and index order differ. Whole space through omodel; an evenly spread subset executed on the recording wgpu stand-in (each also type-checked against real wgpu 24.0.5) with tagged resources per field. traces_validated = bind group layouts whose omodel reading equals the compiled program's descriptor.".into();
+    rep.rule = "declaration sequences (order is state): one group with every repetition-free sequence of 1..3 bindings over {0,1,2,5,9}; two groups with per-group sequences of <=2 bindings over {0,2,5} in every interleaving of declaration order; three groups likewise over {1,4}; 4..8 groups in every rotation and reversed; 2..4 groups of identical shape (and with one odd group out); resource kinds rotate (uniform/storage buffer, texture, storage texture, sampler); names chosen so that alphabetical, declaration and index order differ. Whole space through omodel; an evenly spread subset executed on the recording wgpu stand-in (each also type-checked against real wgpu 24.0.5) with tagged resources per field. traces_validated = bind group layouts whose omodel reading equals the compiled program's descriptor.".into();
     rep.finish()
 }
